@@ -20,7 +20,7 @@ pub fn def() -> CheckDef {
         },
         gen,
         run,
-        rule: "one case = one base image (drawn history or independent-writer layout) and the corruptions of C05 (field x value enumeration, truncations, flips, lost/misdirected writes, mid-operation crash images), filtered to those that PERMISSIVE OPEN ACCEPTS. On every accepted damaged image every single mutating operation is enumerated against every existing object (create small/large stream and storage in each storage; write-append, overwrite and set_len to 0/1/64/4095/4096/grow on each stream; remove each stream/storage; remove_storage_all on the root; setters; flush) - each on a fresh copy of the image, followed by flush, walk and reading everything back - plus drawn 2-6 op histories. Oracle: Ok or Err; no panic (index, overflow, assertion); per-call seam-step budget. sub_runs = (damaged image, operation) executions. Non-trivial: at least one accepted damaged image was mutated; distinct = distinct damaged-image hashes.",
+        rule: "one case = one base image (drawn history or independent-writer layout) and the corruptions of C05 (field x value enumeration, truncations, flips, lost/misdirected writes, mid-operation crash images), filtered to those that PERMISSIVE OPEN ACCEPTS. On every accepted damaged image every single mutating operation is enumerated against every existing object (create small/large stream and storage in each storage; write-append, overwrite and set_len to 0/1/64/4095/4096/grow on each stream; remove each stream/storage; remove_storage_all on the root; setters; flush) - each on a fresh copy of the image, followed by flush, walk and reading everything back - plus drawn 2-6 op histories. Oracle: Ok or Err; no panic (index, overflow, assertion); per-call seam-step budget. sub_runs = (damaged image, operation) executions. Non-trivial: at least one accepted damaged image was mutated; distinct = distinct damaged-image hashes. The last two cases (ten in the thorough tier) are batches of 1500 stale-handle scenarios on undamaged files (src/stale.rs): calls through a handle whose stream was removed and whose directory slot was left free / taken by a storage / taken by a shorter or longer stream.",
         assumptions: &["wrong data on a damaged file is not this property's business", "termination judged by a seam-step budget per API call and the supervisor's CPU watchdog"],
         cpu_limit_s: 1200,
         fault_kinds: "as C05 (F-FC enumerated, F-BF, F-TR, F-LW, F-MW, F-CR/F-WT crash images), restricted to images permissive open accepts",
